@@ -292,6 +292,25 @@ def production_cases(rep, tier):
                         k_[0] += 1
                         return 'ab' + 'cdefghijklmnopqrstuvwxyz'[(k_[0] - 1) % 24]
                     variants.append(('twice', ' '.join(fresh_name(t) for t in text2.split())))
+            # a symbol of the production that stands for one of several keyword phrases (join kind, scope, level ...): every phrase in this production -
+            # printers that treat one phrase specially (`CROSS JOIN` without its ON clause) are seen only with that phrase in that position
+            try:
+                ctx_ = d.contexts()
+                me_ = d.min_expansions()
+                pre_, suf_ = ctx_[p.name]
+                for i_s, s_ in enumerate(p.prod):
+                    alts_ = [tuple(a_.prod) for a_ in d.prods[1:] if a_.name == s_ and 1 <= len(a_.prod) <= 3 and all(x_ in d.terminals for x_ in a_.prod)]
+                    if len(alts_) < 2 or len(alts_) > 40 or s_ == 'id':
+                        continue
+                    for a_ in alts_:
+                        if list(a_) == list(me_[s_]):
+                            continue
+                        kinds3 = pre_ + [t for j, s2 in enumerate(p.prod) for t in (a_ if j == i_s else me_[s2])] + suf_
+                        text3 = d.text_for(kinds3) if len(kinds3) <= 60 else None
+                        if text3:
+                            variants.append((f'alt.{"_".join(a_)}', text3))
+            except Exception:
+                pass
             for tag, sql2 in variants:
                 n += 1
                 try:
